@@ -233,3 +233,11 @@ def run(ctx):
         ctx.guarded(r, AC_.check_choice_protocol, kind)
     r = ctx.rule("R3f", "[resolved program] panic-capable MIR sites of the per-op data types are within the justified inventory", 60)
     ctx.guarded(r, FR.data_cone_panics, ctx)
+    from .. import a64 as X64
+    from .. import a64checks as XC
+
+    r = ctx.rule("R6b", "aarch64: call helpers restore x0-x3 and every tape register; branches stay inside their clause; callee-saved registers are back at `ret`", 8 + 21 + 4)
+    for kind in X64.KINDS:
+        ctx.guarded(r, XC.check_call_helpers, kind)
+        ctx.guarded(r, XC.check_branches, kind)
+        ctx.guarded(r, XC.check_frame, kind)
